@@ -136,3 +136,13 @@ Theorem C10_dpkg_valid_no_space : forall s : bytes,
   Dpkg.dpkg_valid s = true -> RangeCoreFacts.no_space s = true.
 Proof. exact Debian.SpecFacts.dpkg_valid_no_space. Qed.
 Print Assumptions C10_dpkg_valid_no_space.
+
+(* ====== ties to the source: BEGIN (written by bin/mkties) ====== *)
+(* The Go functions named here are translated into Gallina from /repo's source on every run
+   (tools/gen/code.go -> Gen/Code/<Eco>.v); Tie/<Eco>.v, Tie/<Eco>Range.v prove each translation equal to the
+   model the theorems above speak about.  If the code changes so that a tie no longer holds,
+   this file no longer checks. *)
+From Verif.Tie Require Debian.
+Definition C10_tie_debian_compare := Verif.Tie.Debian.tie_debian_compare.
+Print Assumptions C10_tie_debian_compare.
+(* ====== ties to the source: END ====== *)
